@@ -1000,9 +1000,26 @@ def gen_LEVINSON(rng, n, nimpl):
     return c
 
 
+def structured_acorr(rng, p, cplx=True):
+    """positive-definite sequences whose recursion meets EXACT zeros: a scaled identity (white), correlation at even lags only,
+    geometric sequences r_k = a^k (every reflection coefficient after the first is 0), a single non-zero lag"""
+    kind = int(rng.integers(0, 4)); r = np.zeros(p + 1, dtype=complex); r[0] = float(rng.integers(1, 5))
+    if kind == 1:
+        for k in range(2, p + 1, 2):
+            r[k] = r[0] * (0.5 ** (k // 2)) * (1j if cplx and rng.integers(0, 2) else 1) / 2
+    elif kind == 2:
+        a = [0.5, -0.5, 0.5j, -0.25j, 0.25][int(rng.integers(0, 5 if cplx else 2))]
+        r = r[0] * np.array([a ** k for k in range(p + 1)], dtype=complex)
+    elif kind == 3 and p >= 2:
+        r[int(rng.integers(2, p + 1))] = r[0] / 4
+    return r
+
+
 def herm_inputs(rng):
     p = int(rng.integers(1, 6)); N = p + int(rng.integers(3, 8))
     r = acorr_int(lowbit(rng, N, True), p)
+    if rng.integers(0, 4) == 0 and p >= 2:
+        return p, structured_acorr(rng, p), lowbit(rng, p + 1, True)
     if rng.integers(0, 4) == 0:
         r = r.copy(); r[1] += 4 * np.real(r[0])
     Z = lowbit(rng, p + 1, True)
@@ -1767,7 +1784,16 @@ def loopir_tie(ctx, names):
         ref = reference_text(nm)
         same = ref is not None and ' '.join(ref.split()) == ' '.join(progs[nm].coq().split())
         info[nm]['theorem'] = ('applies: the regenerated program is the one %s is about (re-checked by reflexivity inside Coq)' % proof) if same else \
-            'does not apply: the regenerated program text differs from the one proved about; the exact evaluation tie decides'
+            'does not apply: the regenerated program text differs from the one proved about (reported as a broken obligation; the exact evaluation tie and the search look for a failing input)'
+        if not same:
+            # the proof obligation `run program = model` is about ANOTHER program text now: it is broken.  The exact evaluation tie and
+            # the property's search below look for a concrete failing input; if they find none the check still reports the broken
+            # obligation (ending no-failing-input-found): the property is no longer shown to hold of this source by that theorem.
+            for t in THEOREMS[nm]['theorems']:
+                ctx.obligations.append((t, False, []))
+            ctx.broken.append({'theorem': 'loopir: the theorem `run prog_%s = model` (%s) no longer applies: the program regenerated from the source '
+                                          'differs from the one it was proved about' % (nm, proof), 'where': '%s.py' % SPECS[nm]['module'],
+                               'log': 'regenerated program sha1 %s' % progs[nm].sha()})
         if same:
             vo = os.path.join(vlib.COQ, proof[:-2] + '.vo')
             if not os.path.exists(vo) or os.path.getmtime(vo) < os.path.getmtime(os.path.join(vlib.COQ, proof)):
@@ -1785,9 +1811,15 @@ def loopir_tie(ctx, names):
             ref = reference_text_in(MARPLE_PROOF, nm)
             same = ref is not None and ' '.join(ref.split()) == ' '.join(progs[nm].coq().split())
             info[nm]['theorem'] = ('applies: the regenerated program is the one %s is about (re-checked by reflexivity inside Coq)' % MARPLE_PROOF) if same else \
-                'does not apply: the regenerated program text differs from the one proved about; the exact evaluation tie decides'
+                'does not apply: the regenerated program text differs from the one proved about (reported as a broken obligation; the exact evaluation tie and the search look for a failing input)'
             if same:
                 claimed.append(nm)
+            else:
+                for t in MARPLE_BLOCKS[nm][0]:
+                    ctx.obligations.append((t, False, []))
+                ctx.broken.append({'theorem': 'loopir: the order-0/1 theorems about prog_%s (%s) no longer apply: the program regenerated from the source '
+                                              'differs from the one they were proved about' % (nm, MARPLE_PROOF), 'where': '%s.py' % SPECS[nm]['module'],
+                                   'log': 'regenerated program sha1 %s' % progs[nm].sha()})
         if claimed:
             vo = os.path.join(vlib.COQ, MARPLE_PROOF[:-2] + '.vo')
             if not os.path.exists(vo) or os.path.getmtime(vo) < os.path.getmtime(os.path.join(vlib.COQ, MARPLE_PROOF)):
